@@ -572,10 +572,12 @@ impl Scope {
         let module = module.with_forwarded();
         match as_n {
             UseAs::KeepName => {
-                let name = name
-                    .rfind([':', '/'])
-                    .map_or(name, |i| &name[i + 1..])
-                    .replace('_', "-");
+                let name = name.rfind([':', '/']).map_or(name, |i| &name[i + 1..]);
+                // The default namespace is the last url segment without
+                // a leading underscore and without extension.
+                let name = name.strip_prefix('_').unwrap_or(name);
+                let name = name.find('.').map_or(name, |i| &name[..i]);
+                let name = name.replace('_', "-");
                 self.define_module(name, module.expose(expose));
             }
             UseAs::Star => {
